@@ -374,6 +374,31 @@ def run_case(spec, ctx):
                     out["violations"].append({"kind": "wrong_slot_or_value", "detail": {"fn": fn, "name": n, "slot": idx[n], "got": r.out[idx[n]], "expected": float(val.v), "value_belongs_to": where[:3], "backend": be}})
                     break
         cn["slots_compared"] = compared
+        # a wrong value is a slot event only if the expression itself is computed correctly: C evaluates
+        # integer literal arithmetic in int (C02's subject); with every literal typed double the same slots must then agree
+        wrong = [v for v in out["violations"] if v["kind"] == "wrong_slot_or_value"]
+        if be == "c" and wrong and len(wrong) == len(out["violations"]):
+            from .c02 import int_to_double
+
+            alt = int_to_double(oc.value)
+            if alt != oc.value:
+                m2 = B.open_module(be, alt, ref)
+                try:
+                    if not m2.compile_errors and m2.build(which=("asan",)):
+                        rs2 = {c[0]: r for c, r in zip(calls, m2.run(calls))}
+                        ok = True
+                        for v in wrong:
+                            fn, n = v["detail"]["fn"], v["detail"]["name"]
+                            exp, idx = (expected_mon, maps["monitor"]) if fn == "monitor_values" else (expected_state[fn], maps["state"])
+                            r2 = rs2.get(fn)
+                            if r2 is None or r2.exc is not None or C.judge(r2.out[idx[n]], exp[n]) != "ok":
+                                ok = False
+                        if ok:
+                            out["violations"] = []
+                            out.update(status="skipped", reason="expression-level value defect of C integer arithmetic (C02), slots agree once literals are typed double")
+                            return out
+                finally:
+                    m2.close()
         # 5. argument orders
         if spec.get("orders"):
             if be == "c":
